@@ -124,7 +124,7 @@ MANIFEST = {
             "the pointer VALUES lyjson_exp_number forms outside the text without dereferencing them (C11 6.5.6p8), threads. The defects "
             "the search found are in known_findings.d/robust.json: all fixed in /repo (commit ids recorded there, witnesses kept as "
             "regression cases in corpus/robust.txt) except the open tags leak:parse_text_field / leak:get_argument (text argument not "
-            "released at the nesting limit), leak:lys_parse_in (one dictionary string, trigger not isolated) and timeout:pattern:pattern / "
+            "released at the nesting limit), leak:lys_parse_in (one dictionary string, trigger not isolated), post:no-error-record:xml-rc3 (invalid UTF-8 inside CDATA of anyxml content: LY_EINVAL without error record), assert:lydxml_subtree_r:xmlctx-status-LYXML_ELEM_CONTENT (NETCONF notification with a malformed eventTime; both found by the last thorough run, reproduced alone, not patched) and timeout:pattern:pattern / "
             "timeout:yang:modpattern / timeout:value:value (PCRE2 backtracking, libyang sets no match limit; deliberately not patched). "
             "The former if-feature and UTF-8 findings of known_findings.json (iff-not-paren, iff-neg-depth, iff-rp-word, "
             "utf8-overlong-4byte) are fixed.",
